@@ -48,6 +48,9 @@ package ice
 //@ func (*sharedPacketConn).SetWriteDeadline
 //@   props C13
 //@   site call SetWriteDeadline#1 assert only-while-this-handle-is-open: !s.ctx.gDone && recv == s.underlying
+//@   ghostvar marked bool = false
+//@   site call Store#1 ghost marked := true
+//@   site call SetWriteDeadline#1 assert the-handle-remembers-its-deadline-before-it-reaches-the-shared-connection-which-may-apply-it-in-part-and-still-fail: marked
 //@   ensures closed-handle-fails: s.ctx.gDone ==> result != nil
 
 //@ func (*sharedPacketConn).readContext
